@@ -56,6 +56,8 @@ def oracle_job(job):
     except Exception:
         return 0, []
     for s in job["inputs"]:
+        if corr_parse._TIMEOUTS.value >= corr_parse.MAX_TIMEOUTS:
+            break
         pp.ParserElement.disable_memoization()
 
         def run(root):
@@ -79,6 +81,8 @@ def oracle_job(job):
                 outs[cap] = common.with_alarm(3.0, run, root)
             except common.CaseTimeout:
                 outs[cap] = ("hang",)
+                with corr_parse._TIMEOUTS.get_lock():
+                    corr_parse._TIMEOUTS.value += 1
             finally:
                 pp.ParserElement.disable_memoization()
             n += 1
@@ -135,9 +139,11 @@ def indirect_job(job):
         out = []
         for s in job["inputs"]:
             try:
-                out.append(["ok", root.parse_string(s).as_list()])
+                out.append(["ok", common.with_alarm(3.0, lambda: root.parse_string(s)).as_list()])
             except pp.ParseBaseException as ex:
                 out.append(["exc", type(ex).__name__])
+            except common.CaseTimeout:
+                out.append(["hang"])
         return out
     finally:
         pp.ParserElement.disable_memoization()
@@ -155,7 +161,10 @@ def run(ctx):
                      ["yx", "+", "Y", "lx"], ["bx", "MatchFirst", ["yx", "la"]], ["_", "<<=", "X", "bx"], ["xy", "+", "X", "ly"],
                      ["_", "<<=", "Y", "xy"]], root="X", inputs=["ayxyx"])
     got = indirect_job(wit)
-    if got != [["ok", ["a", "y", "x", "y", "x"]]]:
+    if got == [["hang"]]:
+        ctx.fail_input("left-recursive parse does not terminate", {"prog": wit["prog"], "root": "X", "input": "ayxyx"},
+                       "terminates", got, theorem="C04 statement (termination)")
+    elif got != [["ok", ["a", "y", "x", "y", "x"]]]:
         ctx.fail_input("indirect left recursion does not grow", {"prog": wit["prog"], "root": "X", "input": "ayxyx"},
                        ["ok", ["a", "y", "x", "y", "x"]], got, theorem="C04 statement (indirect recursion)",
                        signature="indirect_left_recursion")
@@ -181,6 +190,7 @@ def run(ctx):
                 rng = random.Random(f"C04-{ctx.seed}-more{k}-{i}")
                 prog, root, it, itr, inputs, meta = gen_lr.direct(rng)
                 ojobs.append(dict(prog=prog, root=root, it_prog=it, it_root=itr, inputs=inputs, meta=meta))
+        corr_parse._TIMEOUTS.value = 0
         res = common.pmap(oracle_job, ojobs)
         n = sum(r[0] for r in res)
         bad = [m for r in res for m in r[1]]
